@@ -95,6 +95,7 @@ type shape2 struct {
 // finds its slot (recorded value), plus stale entries and files around them.
 func c07Scenario(env string, cnt int, srt, ci bool, run string, tests []shape2, staleFirst bool) vfCleanScenario {
 	sc := vfCleanScenario{Count: cnt, Sort: srt, CI: ci, Run: run, Env: env, SFiles: map[string]string{}, Other: map[string]string{"README.md": "x"}}
+	sc.CRLF = (len(tests[0].name)+len(tests[0].calls)+len(tests[len(tests)-1].calls)+cnt)%4 == 3
 	files := map[string][]vfEntry{}
 	order := []string{}
 	addFile := func(n string) {
